@@ -12,10 +12,13 @@ import (
 
 	datatransfer "github.com/filecoin-project/go-data-transfer/v2"
 	"github.com/ipfs/go-cid"
+	ipld "github.com/ipld/go-ipld-prime"
 	"github.com/ipld/go-ipld-prime/codec/dagcbor"
 	"github.com/ipld/go-ipld-prime/datamodel"
 	"github.com/ipld/go-ipld-prime/fluent/qp"
 	"github.com/ipld/go-ipld-prime/node/basicnode"
+	"github.com/ipld/go-ipld-prime/node/bindnode"
+	"github.com/ipld/go-ipld-prime/schema"
 	peer "github.com/libp2p/go-libp2p/core/peer"
 )
 
@@ -153,7 +156,10 @@ func Voucher(name string) datatransfer.TypedVoucher {
 	if len(base) > 1 {
 		d = int(base[len(base)-1] - '0')
 	}
-	switch d % 6 {
+	switch d % 7 {
+	case 6:
+		// a schema-typed node whose representation (tuple) differs from its type-level (map) form
+		n = bindnode.Wrap(&typedVoucher{A: base, B: 7}, typedVoucherType)
 	case 3:
 		n, _ = qp.BuildMap(basicnode.Prototype.Any, 3, func(ma datamodel.MapAssembler) {
 			qp.MapEntry(ma, "zz", qp.String(base))
@@ -173,11 +179,27 @@ func Voucher(name string) datatransfer.TypedVoucher {
 	return datatransfer.TypedVoucher{Type: datatransfer.TypeIdentifier(typ), Voucher: n}
 }
 
+type typedVoucher struct {
+	A string
+	B int64
+}
+
+var typedVoucherType = func() schema.Type {
+	ts, err := ipld.LoadSchemaBytes([]byte("type TV struct { A String  B Int } representation tuple"))
+	if err != nil {
+		panic(err)
+	}
+	return ts.TypeByName("TV")
+}()
+
 var voucherNames = map[string]string{}
 
 func voucherKey(t datatransfer.TypeIdentifier, n datamodel.Node) string {
 	if n == nil {
 		return string(t) + "|nil"
+	}
+	if tn, ok := n.(schema.TypedNode); ok {
+		n = tn.Representation() // what is (and must be) persisted and sent
 	}
 	var buf bytes.Buffer
 	if err := dagcbor.Encode(n, &buf); err != nil {
